@@ -40,7 +40,10 @@ var c18Fees = []feeOpt{
 }
 
 var c18Allow = []string{"off", "on+empty", "on+creator"}
-var c18Denoms = [][]string{{}, {"uregen"}, {"uregen", scen.IBC}}
+// c18Mixed is a bank denom using every character class sdk.ValidateDenom admits.
+const c18Mixed = "Wrapped/Asset:v1.X-y_Z"
+
+var c18Denoms = [][]string{{}, {"uregen"}, {"uregen", scen.IBC}, {"uregen", scen.IBC, c18Mixed, "stake"}}
 var c18Rates = []string{"", "0", "0.0", "0.01", "0.333333", "1", "1.5", "0.000000000000000001", "-1", "abc"}
 
 type c18cfg struct {
@@ -87,6 +90,12 @@ func (c c18cfg) govMessages() []*explore.Action {
 		if !want[d] {
 			acts = append(acts, scen.Msg("RemoveAllowedDenom("+d+")", &markettypes.MsgRemoveAllowedDenom{Authority: g, Denom: d}))
 		}
+		delete(want, d)
+	}
+	for _, d := range c18Denoms[c.denoms] {
+		if want[d] {
+			acts = append(acts, scen.Msg("AddAllowedDenom("+d+")", &markettypes.MsgAddAllowedDenom{Authority: g, BankDenom: d, DisplayDenom: "display" + fmt.Sprint(len(d)), Exponent: 6}))
+		}
 	}
 	acts = append(acts, scen.GovFeeParams(scen.G, c18Rates[c.rb], c18Rates[c.rs]))
 	return acts
@@ -130,7 +139,7 @@ type c18Env struct {
 
 func newC18Env() *c18Env {
 	c := chain.New(chain.Options{})
-	ctx := scen.PreparedSeed("prepared").Build(c)
+	ctx := scen.PreparedNoOrdersSeed("prepared-without-orders").Build(c)
 	e := &c18Env{c: c, base: ctx, ecoDoc: scen.ExportEco(c, ctx)}
 	var err error
 	e.dataGen, err = c.DataSrv.ExportGenesis(ctx, c.Cdc)
@@ -328,6 +337,7 @@ func marketOp() c18op {
 				continue
 			}
 			bid := sdk.NewInt64Coin(den, 1000)
+			c.Fund(branch, scen.D, sdk.NewCoins(sdk.NewInt64Coin(den, 10_000_000))) // the buyer's own precondition
 			maxFee := sdk.NewInt64Coin(den, 1_000_000) // well above floor(buyer fee) for every accepted rate in the alphabet
 			buy := scen.Msg(fmt.Sprintf("BuyDirect(D,0.5@1000%s)", strings.SplitN(den, "/", 2)[0]), &markettypes.MsgBuyDirect{Buyer: scen.D.String(), Orders: []*markettypes.MsgBuyDirect_Order{
 				{SellOrderId: r.SellOrderIds[0], Quantity: "0.5", BidPrice: &bid, DisableAutoRetire: true, MaxFeeAmount: &maxFee}}})
@@ -456,7 +466,7 @@ func init() {
 		o := runner.New("C18", tier, "model_checking")
 		o.Assumptions = []string{
 			"trusted base and composition as for the Engine A checks",
-			"configuration alphabet: class/basket fee in {unset, 0uregen, 1uregen, 20000000uregen, 5stake}; allowlist {off, on+empty, on+creator}; allowed denoms {none, uregen, uregen+ibc}; buyer and seller fee rate each in " + fmt.Sprintf("%q", c18Rates),
+			"configuration alphabet: class/basket fee in {unset, 0uregen, 1uregen, 20000000uregen, 5stake}; allowlist {off, on+empty, on+creator}; allowed denoms {none, uregen, uregen+ibc voucher, uregen+ibc voucher+mixed-case denom+stake}; buyer and seller fee rate each in " + fmt.Sprintf("%q", c18Rates),
 			"acceptance paths: (msg) governance messages through ValidateBasic + handler from the prepared state; (genesis) Module.ValidateGenesis + InitGenesis of the prepared state's export with the parameter tables replaced",
 			"an operation's own preconditions: creator funded, allow-listed when the allowlist is on, offering at least the fee; seller holds credits and asks in an allowed denom; buyer funded, bid = ask, max fee far above the buyer fee",
 		}
